@@ -69,3 +69,23 @@ def register(reg):
         "Trusted: proxies see every support_function call (jolt/libccd/original/MPR/EPA use only that interface). Finiteness "
         "is judged on documented outputs, not on unused rows of np.empty simplex arrays. Known: K7b, K8, K12.",
         "DESIGN.md section 4 C19")
+
+    reg("C07",
+        "runtime oracle monitor on epa() results: exact penetration depth and facets of the Minkowski difference (Qhull) for polytope pairs, direction-sampled upper bound + reference-solver gap certificate for smooth pairs; both simplex windings; recording proxies classify the GJK simplex",
+        "4 000 (quick) / 100 000 (thorough) overlapping pairs (depth 1e-4..0.5 of the smaller shape, deep, nested, lattice with "
+        "coincident faces, copy, same). On success=True: | |mtv| - depth* | <= 1e-6 L, residual overlap and remaining gap of "
+        "A vs B+mtv <= 1e-6 L; polytope pairs must report success. Simplices that are not tetrahedra (GJK stopped with fewer "
+        "than four valid points) are the known finding K8.",
+        "Trusted: Qhull facet equations; refsolve lower bound. Blind spot: results for non-tetrahedral input simplices (K8, "
+        "about 8% of the generated overlaps, mostly same/copy/flat classes).",
+        "DESIGN.md section 4 C07")
+    reg("C08",
+        "runtime oracle monitor on mpr_penetration results: exact facets for polytope pairs, common-ball certificates for smooth pairs, closed-form membership of the contact position",
+        "4 000 (quick) / 100 000 (thorough) overlapping pairs incl. concentric/nested (ORIGIN_ON_V1 / V0V1 special cases), "
+        "lattice and same/copy placements. Judged when an intersection is reported: depth >= 0, unit (or zero at touching) "
+        "direction, residual overlap after translating by depth*direction <= 2e-3 L, depth >= depth* - 2e-3 L, contact position "
+        "within 2e-3 L of both colliders; clear overlaps must be reported. Known finding K14 (contact position for "
+        "penetrations deeper than a collider's smallest extent).",
+        "Trusted: Qhull facets, inscribed-ball depth bounds. For smooth shapes a residual overlap is only reported with a "
+        "certificate (sound, not complete). Blind spot: contact position when depth >= smallest extent (K14).",
+        "DESIGN.md section 4 C08")
